@@ -9,6 +9,7 @@ import (
 	"path/filepath"
 	"sort"
 	"sync"
+	"sync/atomic"
 	"testing"
 	"time"
 
@@ -17,10 +18,12 @@ import (
 	"github.com/bluenviron/mediacommon/v2/pkg/codecs/mpeg4audio"
 
 	"github.com/bluenviron/mediamtx/internal/conf"
+	"github.com/bluenviron/mediamtx/internal/logger"
 	"github.com/bluenviron/mediamtx/internal/recorder"
 	"github.com/bluenviron/mediamtx/internal/stream"
 	"github.com/bluenviron/mediamtx/internal/test"
 	"github.com/bluenviron/mediamtx/internal/unit"
+	"github.com/bluenviron/mediamtx/internal/verifhook"
 )
 
 // ---------------------------------------------------------------------------------------------
@@ -49,6 +52,23 @@ type vRecording struct {
 }
 
 // vRecord records one publisher session (one stream id) into dirFormat.
+// vRecLog collects what the stream and the recorder log while the harness records (shown when a recording is unusable)
+type vRecLogger struct {
+	mu    sync.Mutex
+	lines []string
+}
+
+func (l *vRecLogger) Log(level logger.Level, format string, args ...any) {
+	l.mu.Lock()
+	l.lines = append(l.lines, fmt.Sprintf("[%d] ", level)+fmt.Sprintf(format, args...))
+	l.mu.Unlock()
+}
+
+var vRecLog = &vRecLogger{}
+
+// vRecExtraPoint lets a scenario see the hook points too while vRecord owns the hook (C27 fault injection)
+var vRecExtraPoint func(string)
+
 func vRecord(t testing.TB, pathFormat string, spec vRecSpec) *vRecording {
 	var medias []*description.Media
 	if spec.Video {
@@ -60,7 +80,7 @@ func vRecord(t testing.TB, pathFormat string, spec vRecSpec) *vRecording {
 			SizeLength: 13, IndexLength: 3, IndexDeltaLength: 3}}})
 	}
 	desc := &description.Session{Medias: medias}
-	strm := &stream.Stream{OrigDesc: desc, WriteQueueSize: 1024, RTPMaxPayloadSize: 1450, Parent: test.NilLogger}
+	strm := &stream.Stream{OrigDesc: desc, WriteQueueSize: 1024, RTPMaxPayloadSize: 1450, Parent: vRecLog}
 	if err := strm.Initialize(); err != nil {
 		t.Fatalf("harness: %v", err)
 	}
@@ -70,8 +90,20 @@ func vRecord(t testing.TB, pathFormat string, spec vRecSpec) *vRecording {
 	}
 	rec := &vRecording{Spec: spec, Completed: map[string]bool{}, OpenImage: map[string][]byte{}}
 	var mu sync.Mutex
+	// barrier for the end of the recording: the recorder's reader works asynchronously and Close drops what is still
+	// queued, so count the reader callbacks that have started (hook point in stream.Reader)
+	var started, written atomic.Int64
+	verifhook.SetPoint(func(name string) {
+		if name == "stream.reader.beforeCallback" {
+			started.Add(1)
+		}
+		if vRecExtraPoint != nil {
+			vRecExtraPoint(name)
+		}
+	})
+	defer verifhook.SetPoint(nil)
 	w := &recorder.Recorder{PathFormat: pathFormat, Format: conf.RecordFormatFMP4, PartDuration: spec.PartDuration, MaxPartSize: 50 * 1024 * 1024,
-		SegmentDuration: spec.SegmentDuration, PathName: spec.PathName, Stream: strm, Parent: test.NilLogger,
+		SegmentDuration: spec.SegmentDuration, PathName: spec.PathName, Stream: strm, Parent: vRecLog,
 		OnSegmentCreate:   func(p string) { mu.Lock(); rec.Segments = append(rec.Segments, p); mu.Unlock() },
 		OnSegmentComplete: func(p string, _ time.Duration) { mu.Lock(); rec.Completed[p] = true; mu.Unlock() }}
 	w.Initialize()
@@ -103,18 +135,31 @@ func vRecord(t testing.TB, pathFormat string, spec vRecSpec) *vRecording {
 				au = unit.PayloadH264{body(0x41, spec.PayloadSize, f)}
 			}
 			sub.WriteUnit(medias[0], medias[0].Formats[0], &unit.Unit{PTS: pts90, NTP: ntp, Payload: au})
+			written.Add(1)
 		}
 		if spec.Audio {
 			am := medias[len(medias)-1]
 			// audio frames of 1024 samples up to the current video time
 			for audioPTS*90000/44100 <= rel90-int64(spec.AudioLag/time.Millisecond)*90 {
 				sub.WriteUnit(am, am.Formats[0], &unit.Unit{PTS: audioPTS + int64(spec.BasePTS/time.Second)*44100, NTP: spec.StartNTP.Add(time.Duration(audioPTS) * time.Second / 44100), Payload: unit.PayloadMPEG4Audio{body(0x21, 16, ai)}})
+				written.Add(1)
 				audioPTS += 1024
 				ai++
 			}
 		}
 	}
 	strm.WaitForReaders()
+	// every written unit has reached the recorder's callback (or, when the recorder was down for a while after an
+	// injected fault, nothing has moved for half a second)
+	last, lastChange := int64(-1), time.Now()
+	for started.Load() < written.Load() {
+		if v := started.Load(); v != last {
+			last, lastChange = v, time.Now()
+		} else if time.Since(lastChange) > 500*time.Millisecond {
+			break
+		}
+		time.Sleep(time.Millisecond)
+	}
 	time.Sleep(20 * time.Millisecond)
 	if spec.SnapshotOpen {
 		mu.Lock()
